@@ -620,7 +620,8 @@ Lemma iteration_K e stmts c s s' :
   iteration e stmts c s = Ok s' -> K s -> K s' /\ bal s s' /\ (forall T, reserved T (slots s') = []).
 Proof.
   unfold iteration. intros H HK. dbind H as [s1 r].
-  destruct (slots_filled s1) eqn:Hf; [|discriminate]. injection H as <-.
+  destruct (slots_filled s1) eqn:Hf; [|discriminate].
+  destruct (stale_slot 4 s1 (survivors s1)); [discriminate|]. injection H as <-.
   destruct (run_K _ _ _ _ _ _ E HK) as [[[Hwf Hlen] K1] B1]. splits.
   - split; [split; [apply fresh_slots_ok|exact Hlen]|]. intros T. destruct (K1 T) as [HP Hnn].
     change (last_id (reset_slots e s1) T) with (last_id s1 T).
